@@ -11,8 +11,8 @@ PID = 'C13'
 
 def labelings(R, C):
     return [('default', R, C),
-            ('alpha', ['i', 'ii', 'iii', 'iv', 'v'][:R], ['a', 'b', 'c', 'd', 'e'][:C]),
-            ('digits-permuted', ['2', '3', '1', '5', '4'][:R], ['3', '1', '2', '5', '4'][:C])]
+            ('alpha', ['i', 'ii', 'iii', 'iv', 'v', 'vi'][:R], ['a', 'b', 'c', 'd', 'e', 'f'][:C]),
+            ('digits-permuted', ['2', '3', '1', '5', '4', '6'][:R], ['3', '1', '2', '5', '6', '4'][:C])]
 
 
 def axis_specs(labels, thorough=False):
@@ -191,7 +191,7 @@ def _tall_worker(item):
 
 def run(col):
     env.load()
-    mx = 4 if col.tier == 'quick' else 5
+    mx = 4 if col.tier == 'quick' else 6
     col.rule = (f"complete enumeration of the documented selector grammar (DESIGN Appendix B) on every plate shape R x C with "
                 f"R, C in 1..{mx}, under 3 labelings (default, alphabetic custom, permuted digit strings), plus 27x2 / 28x1 / "
                 f"53x1 default plates for labels beyond 'Z', plus a reject family (out-of-range, unknown labels, label/int "
